@@ -673,6 +673,8 @@ class Interp:
                                 dv = Tok("default")
                         elif m.group(1).startswith(OPTION):
                             dv = NONE
+                        elif m.group(1) == "bool" or re.fullmatch(r"[iu](8|16|32|64|128|size)", m.group(1)):
+                            dv = Int(0)
                     self.write_loc(a0[1], dv)
                     return old
             return TOP
